@@ -50,6 +50,35 @@ static std::string make_path(int mode, int n1, int n2) {
 	return s;
 }
 
+// is s already in canonical form (for the given game / terrain flag)?
+static bool is_canonical(const std::string& s, bool isOB, bool terrain) {
+	if (s.empty())
+		return true;
+	bool ok = !is_space((unsigned char) s.front()) && !is_space((unsigned char) s.back()) && s.front() != '\\';
+	for (size_t i = 0; i < s.size(); i++) {
+		ok &= (s[i] != '/');
+		ok &= (s[i] != 10 && s[i] != 13); // line terminators: see known finding about '.'
+		if (i + 1 < s.size())
+			ok &= !(s[i] == '\\' && s[i + 1] == '\\');
+	}
+	std::string rest = s;
+	if (terrain) {
+		ok &= ci_starts(s, "data\\");
+		rest = s.size() >= 5 ? s.substr(5) : std::string();
+	}
+	if (!isOB)
+		ok &= ci_starts(rest, "textures\\");
+	if (terrain && isOB)
+		ok &= !ci_starts(rest, "data\\");
+	// no further textures folder behind the first one, no drive/root prefix
+	for (size_t i = 1; i + 10 <= rest.size(); i++)
+		ok &= !ci_starts(rest.substr(i), "\\textures\\");
+	if (terrain)
+		for (size_t i = 0; i + 5 <= rest.size(); i++)
+			ok &= !(ci_starts(rest.substr(i), "data\\") && (i == 0));
+	return ok;
+}
+
 static void check_canonical(const std::string& in, const std::string& out, bool isOB, bool terrain) {
 	bool blank = true;
 	for (unsigned char c : in)
@@ -119,6 +148,8 @@ extern "C" void h_paths(int ver, int terrain, int mode, int n1, int n2, int slot
 	std::string out1 = *target;
 	bool isOB = hdr.GetVersion().IsOB();
 	check_canonical(in, out1, isOB, terrain != 0);
+	if (is_canonical(in, isOB, terrain != 0))
+		sym_assert(out1 == in, "C19-clean-unchanged: a path that is already in canonical form was changed by the clean-up");
 	nif.TrimTexturePaths();
 	std::string out2 = *target;
 	sym_assert(out2 == out1, (isOB && terrain) ? "C19-idempotent-ob-terrain: cleaning an already cleaned path changed it (Oblivion + terrain)" : "C19-idempotent: cleaning an already cleaned path changed it");
